@@ -884,6 +884,8 @@ func c10Check(ctx *core.Ctx, cs *c10Case, schema *parquet.Schema, res c10Result,
 				key := attributed("order-violated " + k.colKind())
 				if ph.rowIndex == "" {
 					switch {
+					case k.maxRep > 0 && strings.HasPrefix(cs.Container, "sortw"):
+						key = "sorting-writer-merge-repeated-key-bounds" // page bounds of a repeated column do not bound its rows (lists)
 					case k.maxRep > 0:
 						key = "repeated-sort-key-order"
 					case nullVsValue && strings.HasPrefix(cs.Container, "sortw"):
@@ -2133,7 +2135,7 @@ func c10CutsRun(ctx *core.Ctx, cs *c10CutCase, reqs *[]string, pend *[]func(stri
 // ---------------------------------------------------------------- entry point
 
 func RunC10(ctx *core.Ctx) {
-	ctx.SetRule("L1: sort.Sort on GenericBuffer[T], Buffer, RowBuffer[T] and SortingWriter[T] Close, each through its typed Write and through its []Row entry point (WriteRows; the rows are lent from producer memory that is reused and overwritten after every call) over five struct schemas (required / optional pointer / optional zero-is-null / nested optional group / repeated leaves, also repeated leaves placed before the required key columns; required and optional leaves below two optional groups, below a repeated group and below a required group), 0-3 sorting columns x asc/desc x nulls first/last, null and value runs of length 1,2,3,7,8,9,15,16,17,64,65, small alphabets (duplicates), write batches around 8 and 64, explicit Flush() calls between the writes of a sorting writer, optional second phase (write more, sort again); Write/WriteRows/Flush/Close histories on a sorting writer with sort runs of 1..64 rows, the writer reused through Reset (after Close, or abandoning the rows written so far) for a second history; L2: broadcastRangeInt32 for lengths 0..40,63..65,127..129,255,257 x 17 bases, and write/Swap/Less/Page histories on one optional column against the Lean OptCol mirror (flat, and as required / optional leaf of an optional group with nulls at every level below the maximum) and on one repeated column against the RepCol mirror; what Buffer.configure sets up (buffer kind, reversed wrapper, null ordering function) for every leaf of the static schemas and of random schemas nested up to depth 4 against the Lean mirror `configure`; the rows per temporary row group of the sorting writer against the Lean mirror of the writeRows loop. Distinct by canonical input; non-trivial = some nullable sorting column holds both nulls and values (L1), run length >= 8 not a multiple of 8 (kernel), more than 3 ops (history), a required leaf with inherited levels (configure), more than 2 calls (sorting writer history)")
+	ctx.SetRule("L1: sort.Sort on GenericBuffer[T], Buffer, RowBuffer[T] and SortingWriter[T] Close, each through its typed Write and through its []Row entry point (WriteRows; the rows are lent from producer memory that is reused and overwritten after every call) over five struct schemas (required / optional pointer / optional zero-is-null / nested optional group / repeated leaves, also repeated leaves placed before the required key columns; required and optional leaves below two optional groups, below a repeated group and below a required group), 0-3 sorting columns x asc/desc x nulls first/last, null and value runs of length 1,2,3,7,8,9,15,16,17,64,65, small alphabets (duplicates), write batches around 8 and 64, explicit Flush() calls between the writes of a sorting writer, optional second phase (write more, sort again); a directed stream of sorting writers whose first sorting column is repeated (sort runs of 1-3 rows, short lists sharing prefixes); Write/WriteRows/Flush/Close histories on a sorting writer with sort runs of 1..64 rows, the writer reused through Reset (after Close, or abandoning the rows written so far) for a second history; L2: broadcastRangeInt32 for lengths 0..40,63..65,127..129,255,257 x 17 bases, and write/Swap/Less/Page histories on one optional column against the Lean OptCol mirror (flat, and as required / optional leaf of an optional group with nulls at every level below the maximum) and on one repeated column against the RepCol mirror; what Buffer.configure sets up (buffer kind, reversed wrapper, null ordering function) for every leaf of the static schemas and of random schemas nested up to depth 4 against the Lean mirror `configure`; the rows per temporary row group of the sorting writer against the Lean mirror of the writeRows loop. Distinct by canonical input; non-trivial = some nullable sorting column holds both nulls and values (L1), run length >= 8 not a multiple of 8 (kernel), more than 3 ops (history), a required leaf with inherited levels (configure), more than 2 calls (sorting writer history)")
 	d := ctx.Driver()
 	if ctx.Replay != "" {
 		c10Guard(ctx, "panic-in-replay", "replaying a recorded case panicked", func() map[string]any { return map[string]any{"file": ctx.Replay} },
@@ -2254,4 +2256,34 @@ func RunC10(ctx *core.Ctx) {
 		}(w)
 	}
 	wg.Wait()
+	// 4. directed: a sorting writer whose FIRST sorting column is repeated, sort runs of 1-3 rows,
+	// few rows with short lists over {0,1,2} (shared prefixes, different lengths): the merge of the
+	// temporary row groups must order lists element-wise, a proper prefix first, in both directions
+	{
+		r := ctx.Rand("c10-sortw-repeated-key")
+		for i, n := 0, ctx.Scale(800, 8000); i < n; i++ {
+			var ti int
+			for ti = r.Intn(len(c10Types)); c10Types[ti].nrep == 0; ti = r.Intn(len(c10Types)) {
+			}
+			t := c10Types[ti]
+			cs, _, _ := c10RandCase(r, ti, nil)
+			cs.Container = []string{"sortw", "sortw-rows"}[r.Intn(2)]
+			cs.Extra = -1
+			cs.SortRun = 1 + r.Intn(3)
+			cs.Dedupe = r.Intn(3) == 0
+			rep := c10Sort{Path: t.cols[len(t.cols)-t.nrep+r.Intn(t.nrep)], Desc: r.Intn(2) == 0, NullsFirst: r.Intn(2) == 0}
+			var rest []c10Sort
+			for _, s := range cs.Sorting {
+				if strings.Join(s.Path, ".") != strings.Join(rep.Path, ".") {
+					rest = append(rest, s)
+				}
+			}
+			cs.Sorting = append([]c10Sort{rep}, rest...)
+			rows := 2 + r.Intn(11)
+			ctx.Hist("directed", "sortw-repeated-first-key")
+			c10Guard(ctx, "panic-in-case-generation", "generating or running a sort case panicked",
+				func() map[string]any { return map[string]any{"case": cs} },
+				func() { t.run(ctx, cs, r, rows, true) })
+		}
+	}
 }
